@@ -128,6 +128,7 @@ func (e *Enc) call(cur *cursor, v ssa.Value, c *ssa.CallCommon, pos token.Pos) {
 func (e *Enc) staticCall(cur *cursor, v ssa.Value, callee *ssa.Function, binds []Val, args []Val, sig *types.Signature, pos token.Pos, c *ssa.CallCommon) {
 	name, local := e.m.fnName[callee]
 	if !local {
+		e.siteClauses(cur, callee.String(), args, pos)
 		if e.external(cur, v, callee, args, sig, pos, c) {
 			e.ghostAfter(cur, callee.String(), args, v)
 			return
@@ -241,7 +242,7 @@ func (e *Enc) invoke(cur *cursor, v ssa.Value, c *ssa.CallCommon, args []Val, po
 	if len(cs) > 0 {
 		// all implementations side-effect free and tiny (Token() accessors): result unconstrained
 		eff := e.dynEffects(c)
-		if len(eff.heap) == 0 {
+		if len(eff.allHeap()) == 0 {
 			e.setResults(cur, v, sig, e.freshResults(cur, sig, "inv_"+mname))
 			return
 		}
@@ -348,11 +349,11 @@ func (e *Enc) appendCall(cur *cursor, v ssa.Value, c *ssa.CallCommon, pos token.
 		na := e.fresh(ln, "(Array Addr "+leaves[ln]+")")
 		// na agrees with arr everywhere except inside the new backing array, where it holds the copy
 		e.assume(cur.guard, fmt.Sprintf("(forall ((a Addr)) (! (=> (not (and ((_ is Elem) a) (= (elem_a a) %s))) (= (select %s a) (select %s a))) :pattern ((select %s a))))", nb, na, arr, na))
-		e.assume(cur.guard, fmt.Sprintf("(forall ((k Int)) (! (=> (and (<= 0 k) (< k (sl_len %s))) (= (select %s (Elem %s k)) (select %s (Elem (sl_base %s) (+ (sl_off %s) k))))) :pattern ((select %s (Elem %s k)))))", s, na, nb, arr, s, s, na, nb))
+		e.assume(cur.guard, fmt.Sprintf("(forall ((k Int)) (! (=> (and (<= 0 k) (< k (sl_len %s))) (= (select %s (Elem %s k)) (select %s (selem %s k)))) :pattern ((select %s (Elem %s k)))))", s, na, nb, arr, s, na, nb))
 		st.heap[ln] = e.define(ln, "(Array Addr "+leaves[ln]+")", fmt.Sprintf("(ite %s %s %s)", fits, arr, na))
 	}
 	for i, x := range elems {
-		a := fmt.Sprintf("(Elem (sl_base %s) (+ (sl_off %s) (+ (sl_len %s) %d)))", r, r, s, i)
+		a := fmt.Sprintf("(selem %s (+ (sl_len %s) %d))", r, s, i)
 		e.storeAt(st, a, el, x)
 	}
 	e.setVal(cur, v, r)
@@ -508,8 +509,9 @@ func (e *Enc) frameHavoc(cur *cursor, callee *ssa.Function, sig *types.Signature
 	allocPre := e.ghostGet(pre, "$alloc")
 	// collect modifiable locations: array name -> address terms; "*" = whole array
 	mods := e.modLocs(cur, callee, sig, ct, args, pre)
-	for _, h := range sortedKeys(eff.heap) {
-		e.heapArr(h, eff.heap[h])
+	allH := eff.allHeap()
+	for _, h := range sortedKeys(allH) {
+		e.heapArr(h, allH[h])
 		hd := e.heaps[h]
 		old := e.heapGet(pre, h, hd.elem)
 		if ls, ok := mods[h]; ok && len(ls) == 1 && ls[0] == "*" {
@@ -519,7 +521,7 @@ func (e *Enc) frameHavoc(cur *cursor, callee *ssa.Function, sig *types.Signature
 		nw := e.fresh(h, hd.sort)
 		var excl []string
 		for _, l := range mods[h] {
-			excl = append(excl, fmt.Sprintf("(not (= a %s))", l))
+			excl = append(excl, exclOf(l))
 		}
 		cond := fmt.Sprintf("(< (rootid a) %s)", allocPre)
 		if len(excl) > 0 {
@@ -539,6 +541,14 @@ func (e *Enc) frameHavoc(cur *cursor, callee *ssa.Function, sig *types.Signature
 			cur.st.ghost[g] = e.fresh(g, e.ghostSort(g))
 		}
 	}
+}
+
+// a modifies entry is an address term, or "pred:<formula over a>" for a set of addresses
+func exclOf(l string) string {
+	if strings.HasPrefix(l, "pred:") {
+		return "(not " + l[5:] + ")"
+	}
+	return fmt.Sprintf("(not (= a %s))", l)
 }
 
 // modLocs evaluates a modifies clause to (array -> addresses).
@@ -567,6 +577,29 @@ func (e *Enc) modLocs(cur *cursor, callee *ssa.Function, sig *types.Signature, c
 // placeArrays: a location expression (x.f, x.f.g, *p, s[i]) -> arrays and addresses.
 func (e *Enc) placeArrays(sc *specCtx, x SExpr, out map[string][]string) {
 	switch n := x.(type) {
+	case *SCall:
+		// spare(s): the unused capacity of slice s;  elems(s): its elements [0,len)
+		if (n.Fn == "spare" || n.Fn == "elems") && len(n.Args) == 1 {
+			v := sc.val(n.Args[0])
+			sl, ok := v.Ty.Underlying().(*types.Slice)
+			if !ok {
+				e.unsupportedf("modifies: %s of non-slice", n.Fn)
+				return
+			}
+			st := sc.mat(v)
+			lo, hi := fmt.Sprintf("(+ (sl_off %s) (sl_len %s))", st, st), fmt.Sprintf("(+ (sl_off %s) (sl_cap %s))", st, st)
+			if n.Fn == "elems" {
+				lo, hi = fmt.Sprintf("(sl_off %s)", st), fmt.Sprintf("(+ (sl_off %s) (sl_len %s))", st, st)
+			}
+			pred := fmt.Sprintf("pred:(and ((_ is Elem) a) (= (elem_a a) (sl_base %s)) (<= %s (elem_i a)) (< (elem_i a) %s))", st, lo, hi)
+			leaves := map[string]string{}
+			e.m.cellLeaves(sl.Elem(), leaves)
+			for ln := range leaves {
+				out[ln] = append(out[ln], pred)
+			}
+			return
+		}
+		e.unsupportedf("modifies: unsupported location %s", sexprString(x))
 	case *SSel:
 		v := sc.val(n.X)
 		t := v.Ty
@@ -903,7 +936,7 @@ func (e *Enc) frameFormula(fc *fctx, h, elemSort string, st *State) string {
 	}
 	var excl []string
 	for _, l := range fc.mods[h] {
-		excl = append(excl, fmt.Sprintf("(not (= a %s))", l))
+		excl = append(excl, exclOf(l))
 	}
 	cond := "(< (rootid a) $alloc@in)"
 	if len(excl) > 0 {
@@ -916,8 +949,8 @@ func (e *Enc) frameFormula(fc *fctx, h, elemSort string, st *State) string {
 func (e *Enc) frameObligations(fc *fctx, r retInfo, k int) {
 	ct := fc.contract
 	eff := e.m.funcEffects(fc.fn)
-	for _, h := range sortedKeys(eff.heap) {
-		if f := e.frameFormula(fc, h, eff.heap[h], r.st); f != "" {
+	for _, h := range sortedKeys(eff.allHeap()) {
+		if f := e.frameFormula(fc, h, eff.allHeap()[h], r.st); f != "" {
 			e.oblige(r.guard, "frame", fmt.Sprintf("%s@ret%d", h, k), f, e.contractProps(ct, "frame"), fc.fn.Pos(), "modifies "+strings.Join(ct.Modifies, ", "))
 		}
 	}
